@@ -32,7 +32,7 @@ def step(k, x):
                 # the function's own cleanup takes a while (closing files, removing scratch data ...)
                 open(os.path.join(HERE, 'cleaning-%d' % k), 'w').close()
                 t0 = time.time()
-                while time.time() - t0 < 1.5:
+                while time.time() - t0 < 5.0:
                     try:
                         time.sleep(0.05)
                     except BaseException:
